@@ -110,23 +110,27 @@ def parseVersion (s : Str) : Option Version :=
   | some (patch, s) => parseTail major minor patch s
 
 /-! ### Ordering of build metadata (`impl Ord for BuildMetadata`) via an order-embedding
-into `List Nat` with the lexicographic order. -/
+into `List (List Nat)` with the lexicographic order (of lexicographically ordered segments). -/
 
 def trimZeros (s : Str) : Str := s.dropWhile (· == '0')
 
-/-- key of one dot-separated segment; self-delimiting -/
+/-- key of one dot-separated segment.  Numeric segments (all digits) sort before the others;
+two numeric segments compare by (length without leading zeros, digits, total length); two
+non-numeric ones bytewise. -/
 def segKey (seg : Str) : List Nat :=
   if seg.all isDigit then
     let t := trimZeros seg
     [0, t.length] ++ t.map Char.toNat ++ [seg.length]
   else
-    [1] ++ seg.map (fun c => c.toNat + 1) ++ [0]
+    1 :: seg.map Char.toNat
 
-def buildKey (b : Str) : List Nat :=
-  if b.isEmpty then [] else (splitOnDot b).flatMap (fun seg => 2 :: segKey seg)
+/-- no build metadata sorts first (the empty list); otherwise segment by segment, a proper
+prefix first -/
+def buildKey (b : Str) : List (List Nat) :=
+  if b.isEmpty then [] else (splitOnDot b).map segKey
 
 /-- the key the release-version order is the lexicographic order of -/
-def Version.key (v : Version) : List Nat := [v.major, v.minor, v.patch] ++ buildKey v.build
+def Version.key (v : Version) : List (List Nat) := [[v.major], [v.minor], [v.patch]] ++ buildKey v.build
 
 /-- `a < b` for release versions (pre-release empty on both sides) -/
 def Version.lt (a b : Version) : Bool := decide (a.key < b.key)
